@@ -792,9 +792,9 @@ def gen_twin(rng, N, CK):
         stores.extend(p.store)
     args = ", ".join(p.call for p in params)
 
-    def call(name):
+    def call(name, awaited=True):
         c = f"o.{name}({args})" if recv else f"{name}({args})"
-        return c + (".await" if is_async else "")
+        return c + (".await" if is_async and awaited else "")
 
     posts = []
     if recv_post:
@@ -871,7 +871,7 @@ fn run_{N}(inst: bool, inp: &Inp, cx: Rc<Cx>) -> Pin<Box<dyn Future<Output = Out
         let cx: &Cx = &cx;
         {st}
         let mut out = Out1::default();
-        let r = if inst {{ {call(fi)} }} else {{ {call(fp)} }};
+        let r = if inst {{ let __fut = {call(fi, False)}; log(Ev::FutMade); __fut.await }} else {{ let __fut = {call(fp, False)}; log(Ev::FutMade); __fut.await }};
         {render}
         out.post = {post_txt};
         out
